@@ -425,6 +425,9 @@ class HttpParser:
 
         body_part, rest = rest[:size], rest[size:]
         if len(rest) < 2:
+            # the CRLF that ends the chunk has not arrived yet
+            return None
+        if rest[:2] != b'\r\n':
             self.errno = INVALID_CHUNK
             self.errstr = 'chunk missing terminator [%s]' % data
             return -1
